@@ -93,9 +93,16 @@ class Gen(object):
                 return '(%s if %s else %s)' % (self.texpr(defined, depth + 1), self.dexpr(defined), self.texpr(defined, depth + 1))
             if o.boolops and c < 0.30 and defined:
                 return '(%s %s %s)' % (r.choice(sorted(defined)), r.choice(['==', '!=', '<', '+', '-', '*']), self.texpr(defined, depth + 1))
-            if o.comprehension and c < 0.36:
+            if o.boolops and c < 0.34:
+                # comparison chain whose middle operands have side effects (each must be evaluated once)
+                ops = [r.choice(['<', '<=', '==', '!=', '>', '>=']) for _ in range(r.randint(2, 3))]
+                parts = [self.texpr(defined, depth + 1)]
+                for op in ops:
+                    parts += [op, self.texpr(defined, depth + 1)]
+                return '(%s)' % ' '.join(parts)
+            if o.comprehension and c < 0.40:
                 return '[%s for q in L(%d)]' % (self.texpr(defined | {'q'}, depth + 1), self.key())
-            if o.mutation and c < 0.42:
+            if o.mutation and c < 0.46:
                 return r.choice(['o.v', 'm[0]', 'len(m)'])
             if o.helper_calls and c < 0.6:
                 return r.choice(['H1(%s)', 'H2(%s)', 'H2(%s, v=4)']) % self.texpr(defined, depth + 1)
